@@ -10,36 +10,122 @@ import (
 	vf "github.com/mycoria/mycoria/zzvf"
 )
 
-// ---- file-system model: a crash is a write that stops after k bytes; after
-// it no further file operation has any effect (the process is dead) ----
+// ---- file-system model. A file is a sequence of segments (slices of written
+// buffers). A crash is a write that stops after k bytes; after it no further
+// file operation has any effect (the process is dead). ----
+
+type vfFile struct{ segs [][]byte }
 
 var (
-	vfFiles   = map[string][]byte{}
+	vfFiles   = map[string]*vfFile{}
 	vfCrashed bool
 	errCrash  = errors.New("vf: process killed")
+	vfOpen    = map[*os.File]*vfHandle{}
 )
+
+type vfHandle struct {
+	name string
+	pos  int // only sequential writes from the start are modelled
+}
+
+func vfKill() error {
+	vfCrashed = true
+	vf.Event("crash")
+	return errCrash
+}
 
 func vfWriteFile(name string, data []byte, perm os.FileMode) error {
 	if vfCrashed {
 		return errCrash
 	}
+	f := &vfFile{} // O_TRUNC
+	vfFiles[name] = f
 	k := vf.Int()
 	vf.Assume(k >= 0 && k <= len(data))
-	vfFiles[name] = data[:k] // O_TRUNC then k bytes reach the disk
+	if k > 0 {
+		f.segs = [][]byte{data[:k]}
+	}
 	if k < len(data) {
-		vfCrashed = true
-		vf.Event("crash")
-		return errCrash
+		return vfKill()
 	}
 	return nil
 }
 
+func vfOpenFile(name string, flag int, perm os.FileMode) (*os.File, error) {
+	if vfCrashed {
+		return nil, errCrash
+	}
+	f, ok := vfFiles[name]
+	if !ok {
+		if flag&os.O_CREATE == 0 {
+			return nil, os.ErrNotExist
+		}
+		f = &vfFile{}
+		vfFiles[name] = f
+	}
+	if flag&os.O_TRUNC != 0 {
+		f.segs = nil
+	}
+	h := new(os.File)
+	vfOpen[h] = &vfHandle{name: name}
+	return h, nil
+}
+
+func vfFileWrite(h *os.File, b []byte) (int, error) {
+	if vfCrashed {
+		return 0, errCrash
+	}
+	hd := vfOpen[h]
+	f := vfFiles[hd.name]
+	k := vf.Int()
+	vf.Assume(k >= 0 && k <= len(b))
+	if hd.pos != 0 || len(f.segs) > 1 {
+		vf.Stop() // outside the model: only one sequential write from offset 0 over at most one old segment
+	}
+	var segs [][]byte
+	if k > 0 {
+		segs = append(segs, b[:k])
+	}
+	if len(f.segs) == 1 && len(f.segs[0]) > k {
+		segs = append(segs, f.segs[0][k:]) // bytes of the old content beyond what was overwritten survive
+	}
+	f.segs = segs
+	hd.pos += k
+	if k < len(b) {
+		return k, vfKill()
+	}
+	return k, nil
+}
+
+func vfFileSync(h *os.File) error {
+	if vfCrashed {
+		return errCrash
+	}
+	if vf.Bool() {
+		return vfKill()
+	}
+	return nil
+}
+
+func vfFileClose(h *os.File) error { return nil }
+
 func vfReadFile(name string) ([]byte, error) {
-	d, ok := vfFiles[name]
+	f, ok := vfFiles[name]
 	if !ok {
 		return nil, os.ErrNotExist
 	}
-	return d, nil
+	if len(f.segs) == 0 {
+		return []byte{}, nil
+	}
+	if len(f.segs) == 1 {
+		return f.segs[0], nil
+	}
+	// several segments: some mixture of buffers; certainly not one complete token
+	n := 0
+	for _, s := range f.segs {
+		n += len(s)
+	}
+	return vf.FreshBytes(n), nil
 }
 
 func vfRename(oldpath, newpath string) error {
@@ -47,9 +133,7 @@ func vfRename(oldpath, newpath string) error {
 		return errCrash
 	}
 	if vf.Bool() { // killed just before the (atomic) rename
-		vfCrashed = true
-		vf.Event("crash")
-		return errCrash
+		return vfKill()
 	}
 	d, ok := vfFiles[oldpath]
 	if !ok {
@@ -102,9 +186,19 @@ func vfJSONUnmarshal(data []byte, v any) error {
 // new state.
 func VfC18Crash() {
 	const file = "/state.json"
-	oldVal := &JSONStorageFormat{Routers: map[netip.Addr]*StoredRouter{netip.Addr{}: nil}, Mappings: map[string]StoredMapping{}}
-	oldTok, _ := vfJSONMarshal(oldVal)
-	vfFiles[file] = oldTok
+	hadOld := vf.Bool() // a previous complete state exists, or this is the very first shutdown
+	if hadOld {
+		oldVal := &JSONStorageFormat{Routers: map[netip.Addr]*StoredRouter{netip.Addr{}: nil}, Mappings: map[string]StoredMapping{}}
+		oldTok, _ := vfJSONMarshal(oldVal)
+		vfFiles[file] = &vfFile{segs: [][]byte{oldTok}}
+	}
+	if vf.Bool() {
+		// a stale temporary file from an earlier killed shutdown: a prefix of some older serialisation
+		staleTok, _ := vfJSONMarshal(&JSONStorageFormat{})
+		k := vf.Int()
+		vf.Assume(k >= 1 && k < len(staleTok))
+		vfFiles[file+".tmp"] = &vfFile{segs: [][]byte{staleTok[:k]}}
+	}
 
 	s := &JSONFileStorage{filename: file}
 	s.routers = map[netip.Addr]*StoredRouter{netip.Addr{}: nil, netip.IPv6Loopback(): nil}
@@ -120,10 +214,17 @@ func VfC18Crash() {
 		return
 	}
 	n := len(s2.routers)
-	vf.Assert(n == 1 || n == 2, "loaded-neither-old-nor-new-state")
-	if n == 1 {
-		vf.Reach("old-state")
+	if hadOld {
+		vf.Assert(n == 1 || n == 2, "loaded-neither-old-nor-new-state")
 	} else {
+		vf.Assert(n == 0 || n == 2, "loaded-neither-empty-nor-new-state")
+	}
+	switch n {
+	case 0:
+		vf.Reach("empty-state")
+	case 1:
+		vf.Reach("old-state")
+	default:
 		vf.Reach("new-state")
 	}
 }
